@@ -172,28 +172,6 @@ impl Output {
                 rayon::spawn(move || {
                     verbose_timing_phase!("Create output file");
 
-                    if output_config.file_write_mode == FileWriteMode::UnlinkAndReplace {
-                        // Rename the old output file so that we can create a new file in its place.
-                        // Reusing the existing file would also be an option, but that wouldn't
-                        // error if the file is currently being executed.
-                        let renamed_old_file = path.with_extension("delete");
-                        let rename_status = std::fs::rename(&path, &renamed_old_file);
-
-                        // If there was an old output file that we renamed, then delete it. We do so
-                        // from a separate task so that it can run in the background while other
-                        // threads continue working. Deleting can take a while for large files.
-                        if rename_status.is_ok() {
-                            rayon::spawn(move || {
-                                let _ = std::fs::remove_file(renamed_old_file);
-                                // Note, we don't currently signal when we've finished deleting the
-                                // file. Based on experiments run on Linux 6.9.3, if we exit while
-                                // an unlink syscall is in progress on a separate thread, Linux will
-                                // wait for the unlink syscall to complete before terminating the
-                                // process.
-                            });
-                        }
-                    }
-
                     // Create the output file.
                     let sized_output = SizedOutput::new(path, output_config, size);
 
@@ -294,6 +272,39 @@ fn delete_old_output(path: &Path) {
     let _ = std::fs::remove_file(path);
 }
 
+/// Unlinks the old output file, if there is one, so that a new file gets created in its place.
+/// Reusing the existing file would also be an option, but that wouldn't error if the file is
+/// currently being executed and would change what's seen by processes that have the file mapped.
+fn unlink_old_output(path: &Path) -> Result {
+    // Only unlink regular files. We don't want to delete e.g. /dev/null.
+    if !std::fs::symlink_metadata(path).is_ok_and(|m| m.file_type().is_file()) {
+        return Ok(());
+    }
+
+    // Deleting can take a while for large files. Most of that time is spent releasing the file's
+    // blocks, which happens when the last reference to the file goes away. So we keep the old file
+    // open while we unlink it, then close it from a separate task so that it can run in the
+    // background while other threads continue working. Based on experiments run on Linux 6.9.3, if
+    // we exit while such a syscall is in progress on a separate thread, Linux will wait for it to
+    // complete before terminating the process.
+    let old_file = std::fs::File::open(path);
+
+    match std::fs::remove_file(path) {
+        Ok(()) => {}
+        Err(error) if error.kind() == ErrorKind::NotFound => {}
+        Err(error) => {
+            return Err(error)
+                .with_context(|| format!("Failed to remove old output file `{}`", path.display()));
+        }
+    }
+
+    if let Ok(old_file) = old_file {
+        rayon::spawn(move || drop(old_file));
+    }
+
+    Ok(())
+}
+
 fn wait_for_sized_output(sized_output_recv: &Receiver<Result<SizedOutput>>) -> Result<SizedOutput> {
     timing_phase!("Wait for output file creation");
     sized_output_recv.recv()?
@@ -305,6 +316,7 @@ impl SizedOutput {
 
         match output_config.file_write_mode {
             FileWriteMode::UnlinkAndReplace => {
+                unlink_old_output(&path)?;
                 open_options.truncate(true);
             }
             FileWriteMode::UpdateInPlace | FileWriteMode::UpdateInPlaceWithFallback => {
